@@ -83,7 +83,7 @@ func main() {
 	for _, c := range seqCorpus {
 		runSeqCase(r, 0, c)
 	}
-	n := 3000 * r.Scale
+	n := 8000 * r.Scale
 	for i := 0; i < n; i++ {
 		rng, sub := r.Rng.Fork()
 		runSeqCase(r, sub, genSeqCase(rng, 28))
